@@ -43,8 +43,8 @@ def _world(m, kind):
         env = Env.SpaceWorld(m, 5, 5, 0)
     else:
         env = _REAL[kind]
-        env.agents = {}
-        env.components = {}
+        env.agents.clear()
+        env.components.clear()
         env.set_model(m)
     m.environment = env
     return env
